@@ -597,12 +597,13 @@ static char *mk_none(const char *pjson)
 }
 
 #define NTOK 11
-static char *CTOK[7][NTOK];
+static char *CTOK[8][NTOK];
 static const char *ctok_name[NTOK] = { "valid", "valid2", "expires-at-T0+100", "bad-signature", "wrong-alg", "no-dot", "bad-b64-header",
 				       "header-without-alg", "unsigned-none", "empty-string", "NULL" };
-enum { CC_NOKEY, CC_HS, CC_ES_ISS, CC_CB_KID, CC_CB_KID_LENIENT, CC_CB_EDIT, CC_CB_CTX, NCC };
+enum { CC_NOKEY, CC_HS, CC_ES_ISS, CC_CB_KID, CC_CB_KID_LENIENT, CC_CB_EDIT, CC_CB_CTX, CC_LEEWAY_MAX, NCC };
 static const char *cc_name[NCC] = { "no-key", "HS256-key", "ES256-pubkey+iss", "callback-selects-key-by-kid", "callback-selects-key-by-kid-or-leaves-config-untouched",
-				    "HS256-key+iss+callback-that-edits-the-token", "callback-selects-key-by-kid-and-overwrites-config->ctx" };
+				    "HS256-key+iss+callback-that-edits-the-token", "callback-selects-key-by-kid-and-overwrites-config->ctx",
+				    "no-key+largest-leeways (time_leeway(EXP, LONG_MAX), time_leeway(NBF, LONG_MAX))" };
 
 static int kid_cb(jwt_t *jwt, jwt_config_t *cfg)
 {
@@ -678,6 +679,10 @@ static jwt_checker_t *cc_checker(int cc)
 	case CC_CB_KID: jwt_checker_setcb(c, kid_cb, ring); break;
 	case CC_CB_KID_LENIENT: jwt_checker_setcb(c, kid_lenient_cb, ring); break;
 	case CC_CB_CTX: jwt_checker_setcb(c, ctx_cb, ring); break;
+	case CC_LEEWAY_MAX:
+		jwt_checker_time_leeway(c, JWT_CLAIM_EXP, LONG_MAX);
+		jwt_checker_time_leeway(c, JWT_CLAIM_NBF, LONG_MAX);
+		break;
 	case CC_CB_EDIT:
 		jwt_checker_setkey(c, JWT_ALG_HS256, it_h1);
 		jwt_checker_claim_set(c, JWT_CLAIM_ISS, "good");
@@ -734,6 +739,11 @@ static void c13_setup(void)
 	CTOK[CC_CB_KID_LENIENT][4] = mk_es("{\"alg\":\"ES256\"}", P2, 0);
 	for (int i = 0; i < 5; i++) {
 		CTOK[CC_CB_EDIT][i] = strdup(CTOK[CC_HS][i]);
+		{
+			/* time claims far outside any window (accepted thanks to the leeways), then ones that are no integers (refused all the same) */
+			static const char *lp[5] = { "{\"nbf\":50000000000,\"exp\":5}", "{\"nbf\":1699999990}", "{\"nbf\":\"soon\"}", "{\"exp\":\"never\"}", "{\"n\":1}" };
+			CTOK[CC_LEEWAY_MAX][i] = mk_none(lp[i]);
+		}
 		CTOK[CC_CB_CTX][i] = strdup(CTOK[CC_CB_KID][i]);
 	}
 	for (int cc = 0; cc < NCC; cc++) {
